@@ -208,5 +208,24 @@ def gen_runnable_module(rng):
     ]
     rng.shuffle(calls)
     L += calls[: rng.randint(3, len(calls))]
+    # called by the harness AFTER the import has finished and the hook has been uninstalled: definitions nested in
+    # functions (and local classes) are only created - and, in a hooked module, decorated - at that moment
+    L += [
+        "def make_local(q):",
+        "    class Local:",
+        "        w: int = 1",
+        "        def m(self, t):",
+        "            def innermost(u):",
+        "                return u + self.w",
+        "            return innermost(t)",
+        "    return Local().m(q)",
+        "",
+        "def rerun():",
+        "    print('rerun', outer(2), K().m(2), make_local(3), conditional(4), list(gen(2)))",
+        "    return deep(5)",
+        "",
+    ]
+    if rng.random() < 0.3:
+        L += ["print(make_local(1))"]
     L += ["print(deep(3))"]
     return "\n".join(L) + "\n"
